@@ -213,7 +213,7 @@ func c09r3(r *R) {
 			if sc := staticCallee(c.Common()); sc != nil {
 				if _, ch := callerHoldsFlow[fname(sc)]; ch && fname(sc) != "martian/h2.newRelay" && !exempt {
 					held := ls[ins]
-					r.check(holdsSuffix(held, ".flowMu"), fname(fn)+"#call("+sc.Name()+")", c.Pos(), "caller holds flowMu", "caller-holds helper "+sc.Name()+" called without flowMu "+heldString(held))
+					r.check(holdsSuffix(held, ".flowMu"), fname(fn)+"#call("+refName(sc)+")", c.Pos(), "caller holds flowMu", "caller-holds helper "+refName(sc)+" called without flowMu "+heldString(held))
 				}
 			}
 			cn := calleeName(c.Common())
@@ -223,7 +223,7 @@ func c09r3(r *R) {
 				return
 			}
 			// send implementations are caller-holds (their only caller is the writer goroutine)
-			if isWrite && fn.Name() == "send" {
+			if isWrite && refName(fn) == "send" {
 				return
 			}
 			held := ls[ins]
@@ -294,21 +294,21 @@ func c09r4(r *R) {
 			if sc == nil {
 				return
 			}
-			if _, ok := want[sc.Name()]; !ok || !strings.HasPrefix(fname(sc), "(*martian/h2.relay).") {
+			if _, ok := want[refName(sc)]; !ok || !strings.HasPrefix(fname(sc), "(*martian/h2.relay).") {
 				return
 			}
-			want[sc.Name()] = true
+			want[refName(sc)] = true
 			recv := describe(c.Common().Args[0])
 			isPeer := recv == "$0.peer"
 			if fn != pf { // closure: receiver is free var r
 				isPeer = strings.HasSuffix(recv, ".peer") && strings.HasPrefix(recv, "^")
 			}
-			if id, ok := map[string]string{"updateTableSize": "1", "updateInitialWindowSize": "4", "updateMaxFrameSize": "5"}[sc.Name()]; ok {
+			if id, ok := map[string]string{"updateTableSize": "1", "updateInitialWindowSize": "4", "updateMaxFrameSize": "5"}[refName(sc)]; ok {
 				val := describe(c.Common().Args[1])
 				sel := strings.TrimSuffix(val, ".Val") + ".ID"
-				r.check(strings.HasSuffix(val, ".Val") && guardedBy(c.Block(), eq("("+sel+" == "+id+")")), "processFrame#"+sc.Name()+".setting", c.Pos(), "applied for setting id "+id+" with that setting's value", sc.Name()+" must be applied for SETTINGS id "+id+" (RFC 7540 6.5.2) with the setting's value; got value "+val+" under "+strings.Join(guardStrings(c.Block()), ","))
+				r.check(strings.HasSuffix(val, ".Val") && guardedBy(c.Block(), eq("("+sel+" == "+id+")")), "processFrame#"+refName(sc)+".setting", c.Pos(), "applied for setting id "+id+" with that setting's value", refName(sc)+" must be applied for SETTINGS id "+id+" (RFC 7540 6.5.2) with the setting's value; got value "+val+" under "+strings.Join(guardStrings(c.Block()), ","))
 			}
-			r.check(isPeer, "processFrame#"+sc.Name()+".receiver", c.Pos(), "applied to r.peer (the relay that sends to the endpoint that spoke)", "update applied to "+recv+" instead of r.peer: credit/settings of one endpoint would be applied to traffic towards the other")
+			r.check(isPeer, "processFrame#"+refName(sc)+".receiver", c.Pos(), "applied to r.peer (the relay that sends to the endpoint that spoke)", "update applied to "+recv+" instead of r.peer: credit/settings of one endpoint would be applied to traffic towards the other")
 		})
 	}
 	for k, v := range want {
@@ -542,7 +542,7 @@ func h2Rescan(r *R) {
 		}
 	}
 	for _, fn := range h2Funcs(r) {
-		if fn.Name() == "emitEligibleFrames" || fn.Name() == "newRelay" || fname(fn) == "(*martian/h2.relay).outputBuffer" {
+		if refName(fn) == "emitEligibleFrames" || refName(fn) == "newRelay" || fname(fn) == "(*martian/h2.relay).outputBuffer" {
 			continue
 		}
 		eachInstr(fn, func(ins ssa.Instruction) {
@@ -801,10 +801,10 @@ func c10r3(r *R) {
 			m := strings.TrimPrefix(cn, "(*container/list.List).")
 			switch m {
 			case "PushBack":
-				r.check(fn.Name() == "enqueue", fname(fn)+"#list."+m, c.Pos(), "frames enter at the back", "queue insertion outside enqueue")
+				r.check(refName(fn) == "enqueue", fname(fn)+"#list."+m, c.Pos(), "frames enter at the back", "queue insertion outside enqueue")
 			case "Front", "Len", "Init":
 			case "Remove":
-				r.check(fn.Name() == "emitEligibleFrames", fname(fn)+"#list."+m, c.Pos(), "removal only by the gate (of the head, checked by C09.R1)", "queue element removed outside the gate")
+				r.check(refName(fn) == "emitEligibleFrames", fname(fn)+"#list."+m, c.Pos(), "removal only by the gate (of the head, checked by C09.R1)", "queue element removed outside the gate")
 			default:
 				r.bad(fname(fn)+"#list."+m, c.Pos(), "list operation "+m+" can reorder or drop queued frames")
 			}
@@ -1115,7 +1115,7 @@ func c10r10(r *R) {
 					return
 				}
 				n++
-				r.check(fn.Name() == "newRelay", fname(fn)+"#set(outputBuffers)", x.Pos(), "the map of queues is created with the relay", "the map of output queues is replaced after construction: queued frames are dropped")
+				r.check(refName(fn) == "newRelay", fname(fn)+"#set(outputBuffers)", x.Pos(), "the map of queues is created with the relay", "the map of output queues is replaced after construction: queued frames are dropped")
 			case *ssa.MapUpdate:
 				if strings.HasSuffix(describe(x.Map), ".outputBuffers") {
 					n++
